@@ -26,6 +26,15 @@ CHECKS = {
  "C19": dict(level="exploration", engine="E-GEN", technique="runtime monitoring: generated v0.3.x layouts restored by the real code and compared with a reference recomputed by real SQLite from the generator's records",
    text="Legacy layouts generated from real SQLite histories (several generations, snapshots at several indices, WAL files split at arbitrary offsets, any one segment or index removed, all planted times, mixed with current-format replicas); the restored bytes must equal the state computed independently from the generator's records, gaps must produce errors, format arbitration must pick the more recent eligible backup.",
    note="removal of the last segment of a non-final index is undetectable from a 0.3.x listing and is only counted; planted mtimes", ref="§4 C19"),
+ "C07": dict(level="exploration", engine="E-HIST", technique="runtime monitoring: invariants + differential restore after every retention pass of generated histories with planted file ages",
+   text="Generated histories over {write, sync, compact, snapshot, all retention entry points (DB, Store, stand-alone Compactor), RetentionEnabled on/off} with file ages planted around the thresholds in arbitrary orders; after every pass the latest restore must equal the level-0 image, a snapshot must survive once one exists, surviving L0 files must be one contiguous run ending at the newest, and replication must continue.",
+   note="ages planted >= 10 min from any threshold so no verdict depends on run time; direct EnforceRetentionByTXID floors limited to what the statement covers", ref="§4 C07"),
+ "C09": dict(level="exploration", engine="E-GEN", technique="runtime monitoring: differential against real SQLite WAL recovery (and an independent reference decoder) on mutated real WAL files",
+   text="Real (db, WAL) pairs of all page sizes are mutated by every class named in the property; WALReader.PageMap and the byte-budgeted chunked reads from every commit-boundary start offset, chained exactly like DB.sync, must reproduce the image SQLite itself recovers; chunk ends must be commit frames; union of chunks must equal the unchunked map.",
+   note="modernc SQLite recovery is the oracle (cross-checked against C SQLite 3.40.1 on a sample); forged commit sizes that break invariants of every SQLite-written WAL are executed and counted but not judged", ref="§4 C09"),
+ "C15": dict(level="exploration", engine="E-HIST", technique="runtime monitoring: timestamp restores at/around every recorded replication time compared with the level-0 image oracle",
+   text="Generated histories with and without compaction/retention; Restore(Timestamp=T) for T at, just before/after and between the recorded header timestamps of every TXID must equal image_n for an n replicated before T, never newer, exactly the last one when all L0 files exist, monotone in T, and fail before the first backup.",
+   note="replication time = LTX header timestamp read back from archived files; mtimes are never touched", ref="§4 C15"),
 }
 
 # properties not (yet) claimed: id -> reason
